@@ -188,6 +188,33 @@ func c05Cases(level int) []SCase {
 			}
 		}
 	}
+	// special divisors, alone and next to bounds: 1 (a no-op for integers, "integral" for numbers), integer-valued divisors on numbers,
+	// a divisor below 1, a divisor larger than the range
+	for _, typ := range []string{"integer", "number"} {
+		mults := []any{1, 3, 10}
+		if typ == "number" {
+			mults = []any{1, 2, 0.25, 10}
+		}
+		for _, mo := range mults {
+			for bi, b := range []J{{}, {"minimum": -6, "maximum": 6}, {"exclusiveMinimum": 0}} {
+				if level == 0 && bi == 2 {
+					continue
+				}
+				l := J{"type": typ, "multipleOf": mo}
+				name := fmt.Sprintf("%s-divisor,multipleOf=%v", typ, mo)
+				for _, k := range space.SortedKeys(b) {
+					l[k] = b[k]
+					name += fmt.Sprintf(",%s=%v", k, b[k])
+				}
+				nl := space.MakeNullable(l, 0)
+				out = append(out, SCase{ID: "C05/props/" + name, Cfg: baseCfg(), Axes: map[string]string{"pos": "props", "leaf": name},
+					Schema: J{"type": "object", "properties": J{"r": l, "o": l, "no": nl}, "required": A{"r"}}})
+				out = append(out, SCase{ID: "C05/def/" + name, Cfg: baseCfg(), Axes: map[string]string{"pos": "def", "leaf": name},
+					Schema: J{"type": "object", "properties": J{"d": J{"$ref": "#/$defs/D"}, "dn": J{"$ref": "#/$defs/DN"}}, "required": A{"d"}, "$defs": J{"D": l, "DN": nl}}})
+				out = append(out, SCase{ID: "C05/root/" + name, Schema: space.Clone(l), Cfg: baseCfg(), Axes: map[string]string{"pos": "root", "leaf": name}})
+			}
+		}
+	}
 	// fractional bounds on integers (a handful: the current implementation truncates them, listed finding INT_BOUND_TRUNCATED)
 	for _, fb := range []J{{"minimum": 1.5}, {"maximum": 7.5}, {"minimum": 1.5, "maximum": 7.5}, {"minimum": -4.5, "maximum": -1.5}, {"exclusiveMinimum": 1.5}, {"exclusiveMaximum": 7.5}} {
 		l := J{"type": "integer"}
